@@ -592,16 +592,19 @@ def observe_batch_write(symbols, order, T, delays=None):
             obs_reloc.append([i, slab_idx.get(e.location, -1)] + (list(br) if br is not None else [-1, -1]))
     obs = [obs_slabs, obs_pass, obs_reloc]
 
-    # ---- oracle: what the property demands of the write plan
+    # ---- oracle: what the property demands of the write plan (nothing about WHICH requests are batched or how
+    # full a slab may get: that is the model correspondence's business)
     relocated = {r[0]: r for r in obs_reloc}
-    exp_pass = [i for i in order if not (info[i]["batchable"] and info[i]["size"] < T)]
-    if [p[0] for p in obs_pass] != exp_pass or any(pass_reqs[j] is not wrs[exp_pass[j]] for j in range(min(len(pass_reqs), len(exp_pass)))):
-        fails.append(("C16:batch_write:pass-through-changed", f"pass-through {[p[0] for p in obs_pass]} expected {exp_pass}"))
+    passed = [p[0] for p in obs_pass]
+    it = iter(order)
+    if not all(any(i == j for j in it) for i in passed) or \
+            any(w is not wrs[pid_of_path[w.path]] for w in pass_reqs if w.path in pid_of_path) or -1 in passed:
+        fails.append(("C16:batch_write:pass-through-changed", f"pass-through {passed} is not a sub-sequence of the input {order} "
+                      "made of the same request objects"))
     for i in order:
-        small = info[i]["batchable"] and info[i]["size"] < T
-        if small != (i in relocated):
-            fails.append(("C16:batch_write:wrong-relocation-set", f"request {i} size {info[i]['size']} batchable={info[i]['batchable']} "
-                          f"relocated={i in relocated}"))
+        n = passed.count(i) + sum(1 for r in obs_reloc if r[0] == i)
+        if n != 1:
+            fails.append(("C16:batch_write:request-lost-or-duplicated", f"request {i} appears {n} times in the output plan"))
     per_slab = {}
     for i, k, lo, hi in obs_reloc:
         per_slab.setdefault(k, []).append((lo, hi, i))
@@ -617,8 +620,6 @@ def observe_batch_write(symbols, order, T, delays=None):
         else:
             if cur != w.buffer_stager.slab_sz_bytes:
                 fails.append(("C16:slab:ranges-do-not-end-at-slab-size", f"slab {k}: end {cur} size {w.buffer_stager.slab_sz_bytes}"))
-        if w.buffer_stager.slab_sz_bytes >= T:
-            fails.append(("C16:slab:size-not-below-threshold", f"slab {k} has {w.buffer_stager.slab_sz_bytes} bytes, threshold {T}"))
     return {"obs": obs, "fails": fails, "entries": entries, "wrs": wrs, "info": info, "out": out,
             "slab_reqs": slab_reqs, "slab_idx": slab_idx, "pid_of_stager": pid_of_stager, "order_log": order_log,
             "per_slab": per_slab}
